@@ -19,6 +19,10 @@ DEADLINE = dict(h0_offdiag="def", shared1=1, shared2=2, mask_equal="def", biorth
                 cross_overlap="def", cross_overlap_lr="def")
 
 
+for _k in kv.STRUCT:
+    DEADLINE[_k] = 1 if _k == "ragged1" else "def"
+
+
 def stage_rank(s):
     return -1 if s == "def" else int(s)
 
@@ -48,6 +52,9 @@ def judge(v, obs):
             return "well-posed input rejected: %s at %s (%s)" % (obs["verdict"], obs["stage"], obs.get("msg"))
         if v["case"]["fmt"] in ("dense", "sparse") and not obs.get("finite", True):
             return "accepted well-posed numeric input has a non-finite element"
+        want = kv.EXPECT_WARNING.get(v.get("note") or "")
+        if want and want not in obs.get("warnings", []):
+            return "accepted input (%s) without the %s the code promises" % (v.get("note"), want)
         return None
     if obs["verdict"] == "accept":
         return "ill-posed input (%s) answered with values up to order 2" % kv.summary(v)
@@ -58,8 +65,43 @@ def judge(v, obs):
     return None
 
 
+def otbs_direct(rng):
+    """operator_to_BlockSeries called directly: its own rejections (mutually exclusive designations,
+    Hermitian (right, left) pairs, blocked input with a designation, non-square block series).
+    Returns a list of failure descriptions."""
+    import warnings
+    import numpy as np
+    from pymablock.block_diagonalization import operator_to_BlockSeries
+    from pymablock.series import BlockSeries
+    out = []
+    v = kv.make_vcase(rng, [], fmt=rng.choice(["dense", "sparse", "sympy"]))
+    v["designation"] = "eigvecs"
+    ham, kw = kv.build_call(v)
+    vecs = kw["subspace_eigenvectors"]
+    sub = list(v["case"]["sub"])
+    nparam = v["case"]["nparam"]
+    trials = [
+        ("hermitian (right, left) pairs", lambda: operator_to_BlockSeries(ham, subspace_eigenvectors=[(vecs[0], vecs[0])] + list(vecs[1:]), hermitian=True)),
+        ("both designations", lambda: operator_to_BlockSeries(ham, subspace_eigenvectors=vecs, subspace_indices=sub)),
+        ("blocked input with indices", lambda: operator_to_BlockSeries({(0,) * nparam: [[np.eye(1)]]}, subspace_indices=[0])),
+        ("non-square block series", lambda: operator_to_BlockSeries(BlockSeries(data={(0, 0) + (0,) * nparam: np.eye(1)}, shape=(1, 2), n_infinite=nparam))),
+        ("unsupported container", lambda: operator_to_BlockSeries(2.5, subspace_indices=sub)),
+    ]
+    for name, f in trials:
+        with warnings.catch_warnings():
+            warnings.simplefilter("ignore")
+            try:
+                f()
+                out.append("operator_to_BlockSeries accepted: " + name)
+            except (ValueError, TypeError, NotImplementedError):
+                pass
+            except Exception as e:  # noqa: BLE001
+                out.append("operator_to_BlockSeries (%s) raised %s" % (name, type(e).__name__))
+    return out
+
+
 def oracle_illposed(ctx, ncases=None):
-    n = ncases or ctx.n(90, 1500)
+    n = ncases or ctx.n(150, 1500)
     vs = kv.stream(ctx.rng, n)
     failures, samples, nt = [], [], set()
     for v in vs:
@@ -72,12 +114,22 @@ def oracle_illposed(ctx, ncases=None):
             nt.add(core.canon(v))
         if len(samples) < 3:
             samples.append(dict(vcase=v, observed=obs))
-    return dict(evaluations=len(vs), nontrivial=len(nt),
+    extra = 0
+    for _ in range(ctx.n(3, 30)):
+        for msg in otbs_direct(ctx.rng):
+            failures.append(dict(what=msg, input=dict(kind="otbs_direct")))
+        extra += 5
+    return dict(evaluations=len(vs) + extra, nontrivial=len(nt),
                 rule="distinct ill-posed inputs (class x position x value type) plus distinct well-posed numeric inputs checked for finiteness to order 3",
                 samples=samples, failures=failures)
 
 
 def replay_illposed(inp):
+    if inp.get("kind") == "otbs_direct":
+        import random
+        msgs = [m for s_ in range(20) for m in otbs_direct(random.Random(s_))]
+        print("operator_to_BlockSeries direct rejections:", msgs or "all raised")
+        return 1 if msgs else 0
     v = inp["vcase"]
     wellposed = deadline(v) is None
     obs = kv.observe(v, upto=3 if wellposed else 2, check_finite=wellposed)
